@@ -53,5 +53,16 @@ def build(case, cxx, std, variant, opt='-O1'):
            '-finstrument-functions', '-rdynamic'] + VARIANTS[variant] + [
         '-I' + os.path.join(case.dir, 'gen'), '-I' + os.path.join(core.REPO, 'sbepp/src'),
         '-I' + os.path.join(core.VERIF, 'harness'), src, '-o', exe, '-ldl']
-    rc, log = core.sh(cmd, timeout=900)
+    if cxx.startswith('clang'):
+        cmd.insert(1, '-fno-crash-diagnostics')
+    rc, log = 1, ''
+    for _ in range(3):
+        rc, log = core.sh(cmd, timeout=900)
+        if rc == 0 or not compiler_crashed(log):
+            break
     return (exe if rc == 0 else None), log
+
+
+def compiler_crashed(log):
+    return ('frontend command failed due to signal' in log or 'internal compiler error' in log
+            or 'PLEASE submit a bug report' in log or 'Killed signal' in log)
